@@ -162,6 +162,8 @@ def _run(prop, prop_id, tier, seed, args, workdir, env, watchdog, reasons, t0) -
     refusal_reasons: collections.Counter = collections.Counter()
     viols: list[dict] = []
     case_time = 0.0
+    slowest = (0.0, -1)
+    slowest_cpu = (0.0, -1)
     for ev in events:
         t = ev["t"]
         if t == "ok":
@@ -188,6 +190,8 @@ def _run(prop, prop_id, tier, seed, args, workdir, env, watchdog, reasons, t0) -
         elif t == "case_end":
             cases_run += 1
             case_time += ev.get("s", 0)
+            slowest = max(slowest, (ev.get("s", 0), ev.get("i", -1)))
+            slowest_cpu = max(slowest_cpu, (ev.get("cpu", 0), ev.get("i", -1)))
         elif t == "harness_error":
             reasons.append(f"harness error in case {ev.get('i')}: {ev['tb'][-500:]}")
         elif t == "timeout":
@@ -250,6 +254,8 @@ def _run(prop, prop_id, tier, seed, args, workdir, env, watchdog, reasons, t0) -
         "known_findings_hit": known_hit,
         "observations": dict(notes),
         "worker_cpu_s": round(case_time, 2),
+        "slowest_case_wall_s": {"s": slowest[0], "case": slowest[1]},
+        "slowest_case_cpu_s": {"s": slowest_cpu[0], "case": slowest_cpu[1]},
         "inconclusive_reasons": reasons[:10],
     }
     if hasattr(prop, "extra_coverage"):
